@@ -167,17 +167,12 @@ func (c *Ctx) eachInstrR(fn *ssa.Function, f func(ssa.Instruction)) {
 	}
 }
 
-// callsInR: call instructions of the region, without the calls of the helpers themselves
+// callsInR: call instructions of the region (the calls of the helpers themselves included: a rule's anchor may well be a
+// private helper of another anchor, as saveEverything is of the feeder's Run)
 func (c *Ctx) callsInR(fn *ssa.Function) []ssa.CallInstruction {
-	hs := c.helpersOf(fn)
 	var out []ssa.CallInstruction
 	for _, g := range c.regionOf(fn) {
-		for _, s := range callsIn(g) {
-			if sc := s.Common().StaticCallee(); sc != nil && hs[sc] {
-				continue
-			}
-			out = append(out, s)
-		}
+		out = append(out, callsIn(g)...)
 	}
 	return out
 }
@@ -385,4 +380,84 @@ func samePkgAndRecv(a, b string) bool {
 		return s
 	}
 	return cut(a) == cut(b)
+}
+
+// ownerNames: the anchor name of fn followed by the names of the functions it is a private helper of (its only caller,
+// that one's only caller, …). A who-may rule that allows function A allows the private helpers extracted from A.
+func ownerNames(fn *ssa.Function) []string {
+	n := anchorName(fn)
+	out := []string{n}
+	for hops := 0; hops < 4; hops++ {
+		par := reviewedParentOf(n)
+		if par == "" || par == n {
+			break
+		}
+		out = append(out, par)
+		n = par
+	}
+	return out
+}
+
+// ownedBy: fn is one of the named functions or a private helper (transitively) of one
+func ownedBy(fn *ssa.Function, names ...string) bool {
+	for _, o := range ownerNames(fn) {
+		for _, n := range names {
+			if o == n {
+				return true
+			}
+		}
+	}
+	return false
+}
+
+func ownedByAny(fn *ssa.Function, allowed map[string]bool) bool {
+	for _, o := range ownerNames(fn) {
+		if allowed[o] {
+			return true
+		}
+	}
+	return false
+}
+
+// mentionsR: mentions, looking through the results of private helpers of root into what they return
+func (c *Ctx) mentionsR(root *ssa.Function, v ssa.Value, pred func(ssa.Value) bool, depth int) bool {
+	hs := c.helpersOf(root)
+	return mentions(v, func(x ssa.Value) bool {
+		if pred(x) {
+			return true
+		}
+		if cl, ok := x.(*ssa.Call); ok && depth < 3 {
+			if g := cl.Common().StaticCallee(); g != nil && hs[g] {
+				for ri := 0; ri < g.Signature.Results().Len(); ri++ {
+					for _, rv := range returnedValues(g, ri) {
+						if c.mentionsR(root, rv.Val, pred, depth+1) {
+							return true
+						}
+					}
+				}
+			}
+		}
+		return false
+	})
+}
+
+// siteInRoot: the instruction of root that stands for in — in itself, or the (unique) call of the private helper of root
+// that contains it, up the helper chain; nil when there is no unique one
+func (c *Ctx) siteInRoot(root *ssa.Function, in ssa.Instruction) ssa.Instruction {
+	cur := in
+	for hops := 0; hops < 4; hops++ {
+		f := cur.Parent()
+		if f == root {
+			return cur
+		}
+		if !c.helpersOf(root)[f] {
+			return nil
+		}
+		sites := c.callsIn2(root, f)
+		if len(sites) != 1 {
+			return nil
+		}
+		cur = sites[0]
+	}
+	return nil
 }
